@@ -114,7 +114,7 @@ def run(tier: str) -> int:
               "the default targets at every sampled date, one obligation per suffixed node; dynamic: populations whose members "
               "differ in the individual-level inputs (incl. bürgerg_bezug_vorj, alleinerz, monate_elterngeldbezug, wealth), all "
               "suffixed nodes grouped by the matching id column. distinct = (date, node) / (population).")
-    common.build_and_audit(r, ["C15", "C15Sim"], leanchecker=not quick)
+    common.build_and_audit(r, ["C15", "C15Sim", "C15E2E"], leanchecker=not quick)
     rnd = common.rng("C15")
     dates = popgen.DATES_QUICK + ["2015-01-01"] if quick else popgen.DATES_2015
     for date in dates:
